@@ -110,12 +110,12 @@ Definition delivered_strings (vals : list vv) : list str := flat_map vv_strings 
    [pct_decode] / [utf8_valid]. *)
 Fixpoint spec_split_aux (cur : str) (p : str) : list str :=
   match p with
-  | [] => match cur with [] => [] | _ => [rev cur] end
+  | [] => match cur with [] => [] | _ => [rev_append cur []] end
   | c :: p' =>
       if c =? 47
       then match cur with
            | [] => spec_split_aux [] p'
-           | _ => rev cur :: spec_split_aux [] p'
+           | _ => rev_append cur [] :: spec_split_aux [] p'
            end
       else spec_split_aux (c :: cur) p'
   end.
@@ -274,6 +274,38 @@ Definition enumeration_ok (ps : list str) (n : nat) (first last : str) : bool :=
   option_eqb str_eqb (nth_error ps 0) (Some first) &&
   option_eqb str_eqb (nth_error ps (length ps - 1)) (Some last).
 
+(* ---------- large-scope cases: strings given as repeated chunks ----------
+   A path (and what was delivered) of thousands of bytes or segments is
+   printed as a list of (count, chunk): the concatenation of [count] copies
+   of each chunk.  It is expanded here and judged by the same [judge_item] /
+   [judge_equiv] as every other case. *)
+Definition pieces := list (N * str).
+
+Fixpoint rep_str (n : nat) (c : str) : str :=
+  match n with
+  | O => []
+  | S n' => c ++ rep_str n' c
+  end.
+
+Definition expand_pieces (ps : pieces) : str :=
+  flat_map (fun nc => rep_str (N.to_nat (fst nc)) (snd nc)) ps.
+
+Inductive lvv := LVS (s : pieces) | LVM (l : list (N * pieces)).
+Inductive lobs := LDeliver (idx : N) (vals : list lvv) | LStatus (code : N) | LPanic.
+
+Definition expand_lvv (v : lvv) : vv :=
+  match v with
+  | LVS s => VS (expand_pieces s)
+  | LVM l => VM (flat_map (fun ns => repeat (expand_pieces (snd ns)) (N.to_nat (fst ns))) l)
+  end.
+
+Definition expand_lobs (o : lobs) : obs :=
+  match o with
+  | LDeliver i vals => ODeliver i (map expand_lvv vals)
+  | LStatus c => OStatus c
+  | LPanic => OPanic
+  end.
+
 (* ---------- cases ---------- *)
 Inductive c03case :=
   (* independent paths against one table *)
@@ -290,7 +322,12 @@ Inductive c03case :=
           (first last : str) (runs : list (N * obs))
   (* [CEquiv] over [placements segs] *)
 | CPlace (tbl : list (list tseg)) (segs : list str)
-         (first last : str) (runs : list (N * obs)).
+         (first last : str) (runs : list (N * obs))
+  (* [CPaths] ([equiv] = false) or [CEquiv] ([equiv] = true) over expanded
+     paths and observations *)
+| CLarge (tbl : list (list tseg)) (equiv : bool) (items : list (pieces * lobs))
+  (* [CLive] over expanded targets and observations *)
+| CLargeLive (tbl : list (list tseg)) (items : list (bool * pieces * lobs)).
 
 Definition judge_items tbl (items : list (str * obs)) : N :=
   worst (map (fun it => judge_item tbl (fst it) (snd it)) items).
@@ -331,4 +368,11 @@ Definition judge (c : c03case) : N :=
       let os := expand_runs runs in
       if negb (enumeration_ok ps (length os) first last) then V_MALFORMED
       else judge_equiv tbl (combine ps os)
+  | CLarge tbl equiv items =>
+      let its := map (fun it => (expand_pieces (fst it), expand_lobs (snd it))) items in
+      if equiv then judge_equiv tbl its else judge_items tbl its
+  | CLargeLive tbl items =>
+      worst (map (fun it : bool * pieces * lobs =>
+                    let '(rejects, p, o) := it in
+                    judge_live_item tbl (rejects, expand_pieces p, expand_lobs o)) items)
   end.
